@@ -442,6 +442,23 @@ func DurableAlt(img map[string][]byte, b *model.Behaviour, step int, pal *palett
 	defer t.Close()
 	match := func(st *State) string { return matchState(t, lv, st, pal) }
 	mpre, mpost := match(pre), match(post)
+	// a version beyond the recovered latest version (e.g. the residue of the interrupted operation)
+	// must not be loadable when it is asked for explicitly, on a handle that has not loaded anything yet
+	beyond := func(st *State) string {
+		h := iavl.NewMutableTree(faultdb.Restore(img), 0, !fast, logger, opts...)
+		defer h.Close()
+		for _, v := range []int64{st.Latest + 1, st.Latest + 2} {
+			if _, err := h.LoadVersion(v); err == nil {
+				return fmt.Sprintf("LoadVersion(%d) succeeds although the latest version is %d", v, st.Latest)
+			}
+		}
+		return ""
+	}
+	if mpre == "" {
+		mpre = beyond(pre)
+	} else if mpost == "" {
+		mpost = beyond(post)
+	}
 	switch {
 	case mpre == "" && mpost == "":
 		return "pre=post"
